@@ -134,3 +134,48 @@ size_contract(
     loop_locals={0: dict(attributes=ListOf(TupleOf(Int, Bytes)), entry_size=OrUnbound(Int))},
     uses=[POST_INIT['ATT_Read_By_Type_Response']],
 )
+
+
+def wire4(entries):
+    """octets of a list of (handle, end group handle, value) entries on the wire: 4 + len(value) each"""
+    return len(b''.join([struct.pack('<HH', h, e) + v for h, e, v in entries]))
+
+
+def read_by_group_type_inv(bearer, attributes, pdu_space_available, old, ghost, _i):
+    return [
+        _i >= 0,
+        ghost.nresp == old.ghost.nresp,
+        ghost.nreads >= 0,
+        pdu_space_available >= 0,
+        forall(0, len(attributes), lambda j: 0 <= attributes[j][0] and attributes[j][0] <= 0xFFFF and 0 <= attributes[j][1] and attributes[j][1] <= 0xFFFF),
+        wire4(attributes) == bearer.att_mtu - 2 - pdu_space_available,
+        implies(len(attributes) > 0, len(attributes[0][2]) <= 251),
+    ]
+
+
+size_contract(
+    'on_att_read_by_group_type_request',
+    'bumble.att:ATT_Read_By_Group_Type_Request#c10',
+    invariants={0: read_by_group_type_inv},
+    loop_locals={0: dict(attributes=ListOf(TupleOf(Int, Int, Bytes)))},
+    uses=[POST_INIT['ATT_Read_By_Group_Type_Response']],
+)
+
+
+def read_multiple_inv(bearer, values, pdu_space_available, old, ghost, _i):
+    return [
+        _i >= 0,
+        ghost.nresp == old.ghost.nresp,
+        ghost.nreads >= 0,
+        ghost.ngets >= 0,
+        pdu_space_available >= 0,
+        len(b''.join(values)) == bearer.att_mtu - 1 - pdu_space_available,
+    ]
+
+
+size_contract(
+    'on_att_read_multiple_request',
+    'bumble.att:ATT_Read_Multiple_Request#c10',
+    invariants={0: read_multiple_inv},
+    loop_locals={0: dict(values=ListOf(Bytes))},
+)
